@@ -35,7 +35,7 @@ from __future__ import annotations
 
 import itertools
 import types
-from collections.abc import Hashable, Iterable, Iterator, MutableSet, Sequence
+from collections.abc import Collection, Hashable, Iterable, Iterator, MutableSet, Sequence
 from collections.abc import Set as AbstractSet
 from typing import Any, TypeVar, cast, get_args, overload
 
@@ -188,6 +188,9 @@ class _AbstractOrderedSet(AbstractSet[T], Sequence[T]):  # noqa: PLW1641
         Returns:
             True, if this is a subset of other.
         """
+        if not isinstance(other, Collection):
+            # a one-shot iterator: membership tests would consume it
+            other = list(other)
         try:
             # Fast check for obvious cases
             if len(self) > len(other):  # type: ignore[arg-type]
